@@ -31,7 +31,7 @@ func EncodedSize(val interface{}) int {
 // EncodeObject serializes val into buf with Thrift Binary Protocol, with optional Zero-Copy thrift.NocopyWriter.
 // buf must be large enough to contain the entire serialization result.
 func EncodeObject(buf []byte, w thrift.NocopyWriter, val interface{}) (int, error) {
-	ret, err := reflect.Append(buf[:0], val)
+	ret, err := reflect.Append(buf[:0:len(buf)], val)
 	if len(ret) > len(buf) {
 		return 0, fmt.Errorf("index out of range [%d] with length %d.\n"+ //nolint:staticcheck // ST1005: newlines
 			"Please make sure the input will not be changed after calling EncodedSize or during EncodeObject(concurrency issues).",
